@@ -250,6 +250,72 @@ def main(tier=None):
                 ck.violation(('leak', 'close/abort with pending requests', ','.join(x for x in ('malloc', 'types', 'comms', 'infos', 'files', 'reqs') if L.get(x) != '0')), c.text(),
                              '%s: rank %d: %s open=%s' % (c.name, k, {x: L.get(x) for x in ('malloc', 'types', 'comms', 'infos', 'files', 'reqs')}, r.r(k, nfo).get('n'))); break
     ck.cov['pending_at_exit_cases'] = len(pend)
+    # ---- every way a nonblocking request leaves the queue (served, cancelled, refused at posting) x every kind of per-request MPI object
+    # (duplicated non-contiguous buffer type of a read, datatype built from a true imap, conversion buffer): nothing is left after the close
+    KINDS = {
+        'iget': dict(op='get', form='vara', v=0, s=[0, 0], c=[2, 2], mem='int'),
+        'iget_nc': dict(op='get', form='vara', v=0, s=[0, 0], c=[2, 2], mem='int', lay='idx'),
+        'iget_conv_nc': dict(op='get', form='vara', v=0, s=[0, 0], c=[1, 4], mem='double', lay='vec:1:2'),
+        'iget_imap': dict(op='get', form='varm', v=0, s=[0, 0], c=[2, 2], st=[1, 1], imap=[1, 2], mem='int'),
+        'iput_nc': dict(op='put', form='vara', v=0, s=[2, 0], c=[1, 4], mem='int', lay='vec:1:2'),
+        'iput_imap': dict(op='put', form='varm', v=0, s=[2, 0], c=[2, 2], st=[1, 1], imap=[1, 2], mem='int'),
+        'bput_imap': dict(op='put', form='varm', v=0, s=[2, 0], c=[2, 2], st=[1, 1], imap=[1, 2], mem='int', nb='b'),
+        'bput_nc': dict(op='put', form='vara', v=0, s=[3, 0], c=[1, 4], mem='int', lay='idx', nb='b'),
+    }
+    RETIRE = ['wait_id', 'wait_ALL', 'cancel_id', 'cancel_ALL', 'cancel_kind', 'refused_nobuf', 'refused_small', 'refused_coords']
+    ret = []
+    for np_ in (1, 2):
+        for kname, kd in KINDS.items():
+            for how in RETIRE:
+                isb = kd.get('nb') == 'b'
+                if how in ('refused_nobuf', 'refused_small') and not isb: continue
+                for indep in (0, 1):
+                    if np_ == 2 and (indep or how.startswith('refused')) and kname not in ('iget_nc', 'bput_imap'): continue
+                    c = Case('C17-retire-np%d-%s-%s-%s' % (np_, kname, how, 'indep' if indep else 'coll'), np_)
+                    c.op('*', 'create', f=0, path='q.nc', fmt=2)
+                    c.op('*', 'def_dim', name='t', unlim=1); c.op('*', 'def_dim', name='x', len=4)
+                    c.op('*', 'def_var', name='v', xtype='int', dims=[0, 1])
+                    c.op('*', 'enddef', f=0)
+                    c.op('*', 'put', f=0, form='vara', v=0, s=[0, 0], c=[2, 4], coll=1, mem='int', tag=3, scale=1)
+                    if isb and how != 'refused_nobuf': c.op('*', 'buffer_attach', f=0, size=4 if how == 'refused_small' else 256)
+                    if indep: c.op('*', 'begin_indep', f=0)
+                    kw = {k: v for k, v in kd.items() if k != 'op'}
+                    kw.setdefault('nb', 'i')
+                    if how == 'refused_coords': kw['s'] = [0, 9]
+                    if kd['op'] == 'put': kw.update(tag=6, scale=1)
+                    # two requests of the kind, so that "by id" names one and leaves one for the ALL form that follows
+                    l1 = c.op('*', kd['op'], f=0, req=0, **kw)
+                    l2 = c.op('*', kd['op'], f=0, req=1, **kw) if not how.startswith('refused') else None
+                    if how == 'wait_id': c.op('*', 'wait', f=0, ids=['q1'], all=0 if indep else 1); c.op('*', 'wait', f=0, ids=['q0'], all=0 if indep else 1)
+                    elif how == 'wait_ALL': c.op('*', 'wait', f=0, kind='ALL', all=0 if indep else 1)
+                    elif how == 'cancel_id': c.op('*', 'cancel', f=0, ids=['q1']); c.op('*', 'cancel', f=0, ids=['q0'])
+                    elif how == 'cancel_ALL': c.op('*', 'cancel', f=0, kind='ALL')
+                    elif how == 'cancel_kind': c.op('*', 'cancel', f=0, kind='GET' if kd['op'] == 'get' else 'PUT')
+                    ln = c.op('*', 'inq_nreqs', f=0)
+                    if isb and how != 'refused_nobuf': c.op('*', 'buffer_detach', f=0)
+                    if indep: c.op('*', 'end_indep', f=0)
+                    lx = c.op('*', 'close', f=0)
+                    led = c.op('*', 'ledger'); nfo = c.op('*', 'inq_files_opened')
+                    ret.append((c, how, l1, ln, lx, led, nfo))
+    rres = runner.run_cases(b['vx'], [x[0] for x in ret], batch=30)
+    for (c, how, l1, ln, lx, led, nfo), r in zip(ret, rres):
+        ck.cov['evaluations'] += 1; trans += 1
+        if r.status != 'ok':
+            from engine.script import first_frame
+            ck.violation((r.status, 'request retirement', first_frame(r.detail)), c.text(), c.name + ': ' + r.detail[:500]); continue
+        for k in r.ranks:
+            ck.outcomes.add(('retire', how, r.rc(k, l1), r.rc(k, lx)))
+            if how.startswith('refused') and r.rc(k, l1) == 0:
+                ck.violation(('rc', 'post', how), c.text(), '%s: rank %d: the posting call was expected to be refused, it returned 0' % (c.name, k)); break
+            if not how.startswith('refused') and r.rc(k, l1) != 0:
+                ck.violation(('rc', 'post', how), c.text(), '%s: rank %d: the posting call returned %d' % (c.name, k, r.rc(k, l1))); break
+            if r.r(k, ln).get('n') != '0' or r.rc(k, lx) != 0:
+                ck.violation(('rc', 'close after every request was retired', how), c.text(), '%s: rank %d: %s requests pending, close returned %d' % (c.name, k, r.r(k, ln).get('n'), r.rc(k, lx))); break
+            L = r.r(k, led)
+            if any(L.get(x) != '0' for x in ('malloc', 'types', 'comms', 'infos', 'files', 'reqs')) or r.r(k, nfo).get('n') != '0':
+                ck.violation(('leak', 'request retirement', how + ':' + ','.join(x for x in ('malloc', 'types', 'comms', 'infos', 'files', 'reqs') if L.get(x) != '0')), c.text(),
+                             '%s: rank %d: after the last close: %s open=%s' % (c.name, k, {x: L.get(x) for x in ('malloc', 'types', 'comms', 'infos', 'files', 'reqs')}, r.r(k, nfo).get('n'))); break
+    ck.cov['request_retirement_cases'] = len(ret)
     # ---- opens that fail inside the driver (valid signature, header broken further down) release everything they took
     import checks.c04 as c04, checks.c20 as c20
     from engine import cdf
@@ -289,7 +355,7 @@ def main(tier=None):
     ck.cov.update(states=states, transitions=trans, traces_validated_against_impl=trans, max_depth=maxd, completed_depth=completed, distinct_nontrivial=states,
                   rule='BFS over {create/open of 3 paths (+ non-netCDF file, missing file, NC_NOCLOBBER), 10 per-file ops incl. close/abort on every id ever returned and on -1, 1023, 1024, 10^6}; '
                        'state = (open id table with per-file reference model, files on disk); after every transition each open file is swept against its own model, all files are closed and the '
-                       'malloc/MPI-object ledger must be zero; plus the NC_MAX_NFILES boundary case; plus every way of leaving a file (close, abort, abort after redef, from independent mode, close / abort of a new file still in its first define mode) with iput / iget / bput / iput_varn / converting requests still pending on 1-3 processes: NC_EPENDING, id invalid afterwards, ledger zero; plus opens of files with a valid signature and a header broken further down (9 grammar violations, 3 truncations, 2 formats) while another file is open: the other file stays usable and the ledger returns to zero')
+                       'malloc/MPI-object ledger must be zero; plus the NC_MAX_NFILES boundary case; plus every way of leaving a file (close, abort, abort after redef, from independent mode, close / abort of a new file still in its first define mode) with iput / iget / bput / iput_varn / converting requests still pending on 1-3 processes: NC_EPENDING, id invalid afterwards, ledger zero; plus every way a request leaves the queue (wait / cancel by id, by ALL, by kind; refused at posting for lack of buffer space or bad coordinates) x requests owning MPI objects (non-contiguous buffer type of a read, true imap, conversion, buffered) in collective and independent mode: nothing pending, close succeeds, ledger zero; plus opens of files with a valid signature and a header broken further down (9 grammar violations, 3 truncations, 2 formats) while another file is open: the other file stays usable and the ledger returns to zero')
     ck.assumptions += ['depth bound %d, np=1' % maxdepth]
     runner.cleanup()
     return ck.finish(min_eval=200, min_outcomes=15)
